@@ -1,18 +1,18 @@
 SPECIFICATION MCSpec
 CONSTANTS
   NP = 4
-  Lens = {2, 3, 4, 5, 6, 7, 8}
+  Lens = {3, 4, 6, 7}
   PLen = 4
   PMin = 2
   SLen = 2
   TLen = 6
   Kinds = {"over", "under"}
-  Rfs = {0, 1, 2, 3}
+  Rfs = {1, 2}
   Isos = {FALSE}
   Skips = {FALSE, TRUE}
-  Bads = {{}, {1}, {2}, {1, 2}, {2, 3}}
+  Bads = {{}, {1}, {1, 2}}
   Longs = {FALSE, TRUE}
   RootSet = {0}
-  Transforms = {"none", "keep", "head", "tail"}
+  Transforms = {"none", "head"}
 INVARIANTS MCTypeOK MCSound MCSoundSkip MCComplete MCCompleteSkip MCNeverSplit MCBadAlone MCOthersUnaffected MCFilterHonoured
 CHECK_DEADLOCK FALSE
